@@ -438,8 +438,10 @@ def oracle(ctx, pairs, seed_base=0):
             s2, d2 = G.build_geo(p.sspec, ctx.repo), G.build_geo(p.dspec, ctx.repo)
             ms, md = G.moves(r, s2), G.moves(r, d2)
             sn = G.snap_moves(r, s2)
+            rl = G.relayer_move(r, s2)
             case = {'kind': 'sequence', 'family': p.family, 'src': p.sspec, 'dst': p.dspec,
-                    'then_src': (sn if sn and i % 4 == 3 else [ms[i % len(ms)]]), 'then_dst': ([md[(i // 3) % len(md)]] if (i // 3) % 4 else []),
+                    'then_src': (sn if sn and i % 4 == 3 else (rl if i % 8 == 5 else [ms[i % len(ms)]])), 'then_dst': ([rl[0], ['surface', {c.name: rl[0][2] for c in d2.columnlist}]] if i % 8 == 5 and not (sn and i % 4 == 3)
+                                 else ([md[(i // 3) % len(md)]] if (i // 3) % 4 else [])),
                     'nvar': 1 + i % 6, 'vseed': seed_base + i}
             O.check_sequence(ctx, case, s2, d2, ctx.repo)
             kseq = '+'.join(o[0] for o in case['then_src']); nseq[kseq] = nseq.get(kseq, 0) + 1
